@@ -336,20 +336,50 @@ def mark_orphans(chk, prefix="C10"):
             if st_.get(r).get("__kind__") == "set":
                 st_.env[v] = new_zset(st_, arr_of(st_, r))
 
+    # termination: U = the ids that can ever be collected (the context and every registered child); finitely many (S: the registered links are a
+    # finite relation).  card is the cardinality of finite sets, used only through the ground facts stated in on_step.
+    SETS = z3.ArraySort(SS, z3.BoolSort())
+    card = z3.Function("card", SETS, z3.IntSort())
+    U = z3.Array("collectable_ids", SS, z3.BoolSort())
+    N = z3.Int("number_of_collectable_ids")
+    pu, cu = z3.String("p!U"), z3.String("c!U")
+    st.assume(z3.And(z3.Select(U, ctx.t), z3.ForAll([pu, cu], z3.Implies(rel(st, m, pu, cu), z3.Select(U, cu))), N >= 0))
+
     def inv(eng_, st_):
         D, Pn = arr_of(st_, st_.env["all_descendants"]), arr_of(st_, st_.env["to_process"])
         p, c = z3.String(fresh_name("p")), z3.String(fresh_name("c"))
         return z3.And(z3.ForAll([p, c], z3.Implies(z3.And(z3.Select(D, p), rel(st_, m, p, c)), z3.Or(z3.Select(D, c), z3.Select(Pn, c)))),
                       z3.Or(z3.Select(D, ctx.t), z3.Select(Pn, ctx.t)), arr_of(st_, done) == done0,
-                      z3.ForAll([c], z3.Implies(z3.And(z3.Or(z3.Select(D, c), z3.Select(Pn, c)), c != ctx.t), RANK(c) > RANK(ctx.t))))
+                      z3.ForAll([c], z3.Implies(z3.And(z3.Or(z3.Select(D, c), z3.Select(Pn, c)), c != ctx.t), RANK(c) > RANK(ctx.t))),
+                      z3.ForAll([c], z3.Implies(z3.Or(z3.Select(D, c), z3.Select(Pn, c)), z3.Select(U, c))))
 
     def havoc(eng_, st_):
         st_.env["all_descendants"] = new_zset(st_, name="D")
         st_.env["to_process"] = new_zset(st_, name="P")
         for v in ("current_id", "direct_children"):
             st_.env.pop(v, None)
+        st_.ghost["mark_head"] = (arr_of(st_, st_.env["all_descendants"]), arr_of(st_, st_.env["to_process"]))
 
-    eng.loop_handlers[(MARK, "while", 0)] = LoopContract(chk, f"{prefix}.state.closure.loop", inv, havoc, abstract=abstract,
+    def variant(eng_, st_):
+        D, Pn = arr_of(st_, st_.env["all_descendants"]), arr_of(st_, st_.env["to_process"])
+        return (N - card(D), card(Pn))
+
+    def on_step(eng_, s2):
+        """S (finite sets), as ground facts about the sets of THIS iteration: |S| >= 0; adding a new element adds one, removing a present element
+        removes one; a subset of the collectable ids has at most N elements"""
+        D0, P0 = s2.ghost["mark_head"]
+        D2, P2 = arr_of(s2, s2.env["all_descendants"]), arr_of(s2, s2.env["to_process"])
+        x = zstr(s2.env["current_id"])
+        c = z3.String(fresh_name("c"))
+        grown, popped = z3.Store(D0, x, True), z3.Store(P0, x, False)
+        s2.assume(z3.And(card(D0) >= 0, card(P0) >= 0, card(D2) >= 0, card(P2) >= 0, card(grown) >= 0, card(popped) >= 0,
+                         z3.Implies(z3.Not(z3.Select(D0, x)), card(grown) == card(D0) + 1),
+                         z3.Implies(z3.Select(P0, x), card(popped) == card(P0) - 1),
+                         z3.Implies(z3.ForAll([c], z3.Implies(z3.Select(grown, c), z3.Select(U, c))), card(grown) <= N),
+                         z3.Implies(z3.ForAll([c], z3.Implies(z3.Select(D0, c), z3.Select(U, c))), card(D0) <= N)))
+
+    eng.loop_handlers[(MARK, "while", 0)] = LoopContract(chk, f"{prefix}.state.closure.loop", inv, havoc, abstract=abstract, on_step=on_step, variant=variant,
+                                                         variant_desc="lexicographic: (collectable ids not yet collected, ids waiting to be processed)",
                                                          desc="every registered child of a collected id is collected or still to be processed; the context itself is collected or to be processed")
     res = eng.run(P.func(MARK), [self_, ctx], st=st)
     chk.paths += len(res)
